@@ -21,6 +21,8 @@ import (
 	"testing/synctest"
 	"time"
 
+	logging "github.com/ipfs/go-log/v2"
+
 	"verifharness/vh"
 
 	"github.com/celestiaorg/celestia-node/api/rpc"
@@ -91,6 +93,7 @@ type gate struct {
 	cancel  context.CancelFunc
 	done    chan result // the ServeHTTP call returned (or panicked)
 	ws      bool
+	rec     *httptest.ResponseRecorder
 }
 
 type result struct {
@@ -158,8 +161,9 @@ func (g *rpcRig) send(id, remote string, ws bool) (admitted bool, code int, gt *
 	g.mu.Lock()
 	g.gates[id] = gt
 	g.mu.Unlock()
+	rec := httptest.NewRecorder()
+	gt.rec = rec
 	go func() {
-		rec := httptest.NewRecorder()
 		res := result{}
 		defer func() {
 			if r := recover(); r != nil {
@@ -231,11 +235,14 @@ func replayRPCPath(rep *vh.Report, p *rpcPlan, pi int, path []rpcStep) (conform 
 		conform, diverged = false, true
 	}
 	defer func() {
-		// let every request still inside the handler end, so that the bubble can close
-		for _, gt := range open {
-			gt.release <- "returned"
-			<-gt.done
+		// let every request still inside the handler end, whatever the driver knows about it, so that the
+		// bubble can close: a cancelled context makes the gated handler return
+		rig.mu.Lock()
+		for _, gt := range rig.gates {
+			gt.cancel()
 		}
+		rig.mu.Unlock()
+		synctest.Wait()
 	}()
 
 	for i, st := range path {
@@ -274,6 +281,11 @@ func replayRPCPath(rep *vh.Report, p *rpcPlan, pi int, path []rpcStep) (conform 
 			if !admitted && entered != 0 {
 				violate(rep, "X_limits/rpc/rejected-request-reached-handler",
 					fmt.Sprintf("request answered %d was served by the handler", code), where(i))
+				return false
+			}
+			if admitted && (gt.rec.Code == http.StatusTooManyRequests || gt.rec.Code == http.StatusServiceUnavailable) {
+				violate(rep, "X_limits/rpc/rejected-request-reached-handler",
+					fmt.Sprintf("the response already carries status %d but the request is being served by the handler", gt.rec.Code), where(i))
 				return false
 			}
 			if admitted && entered != 1 {
@@ -610,6 +622,10 @@ func runPaths(t *testing.T, rep *vh.Report, kind, plan string, n int, replay fun
 }
 
 func TestDriver(t *testing.T) {
+	// the runs provoke thousands of refusals, injected errors and recovered panics: keep the log quiet
+	for _, l := range []string{"shrex", "rpc", "rcmgr"} {
+		_ = logging.SetLogLevel(l, "fatal")
+	}
 	rep := vh.NewReport()
 	defer func() {
 		if err := rep.Write(); err != nil {
@@ -618,6 +634,11 @@ func TestDriver(t *testing.T) {
 	}()
 	if p, v := vh.Recover(func() { runRPCPlans(t, rep) }); p {
 		rep.Inconclusivef("driver panicked: %s", v)
+	}
+	if nViol.Load() == 0 && os.Getenv("VERIF_RPC_PLANS") != "" {
+		if p, v := vh.Recover(func() { runRealStackDirected(t, rep); runRealNetwork(rep); runConcurrent(rep) }); p {
+			rep.Inconclusivef("driver panicked: %s", v)
+		}
 	}
 	if nViol.Load() == 0 {
 		if p, v := vh.Recover(func() { runShrexPlans(t, rep) }); p {
